@@ -25,6 +25,7 @@ LEAN_TARGETS = ["OmplModel.Props.C17", DRIVER]
 B = core.f2bits
 F = core.bits2f
 
+NON_ADDITIVE = ("toll", "tolli", "step", "stepi", "checker", "clear")     # motion cost not additive along interpolated points
 BG_OBJECTIVES = ("toll", "tolli", "step", "stepi", "checker", "integral", "clear", "work")
 LOCKSTEP = ("collapse", "rope", "subdivide", "interp", "interpn", "reduce", "pshort")
 REMOVERS = ("collapse", "reduce")
@@ -615,6 +616,12 @@ def run_scenario(ck, hbin, hchk, sc, ops, tag, seedtag):
         rnd = t[0] == "rnd"
         objective = t[2] if rnd else "len"
         ck.count("op:" + ("rnd-" if rnd else "") + routine)
+        if o == "budget-exceeded":
+            nonadd = routine == "rope" and objective in NON_ADDITIVE
+            issues.append(dict(kind="oracle", routine=routine, clause="terminates", cls="rope-livelock-under-a-non-additive-objective" if nonadd else "checkMotion-budget",
+                               detail="the routine asked more than 150000 motions without returning" + (" (objective %s)" % objective), objective=objective,
+                               script=hdr + [line], observed=[o]))
+            continue
         if o == "bad-op":
             issues.append(dict(kind="oracle", routine=routine, clause="protocol", detail="bad-op on a well-formed line", script=hdr + [line], observed=[o]))
             continue
@@ -1432,6 +1439,13 @@ def run_chain(ck, hbin, sc, rng, tag):
             return issues
         impl, rc, err = ck.run_bin(hbin, hdr + [line], timeout=120, env=None if free else {"ASAN_OPTIONS": "detect_leaks=0:abort_on_error=0:exitcode=99"})
         ck.count("op:chain-free%d" % free)
+        if impl is not None and rc == 0 and len(impl) == 4 and impl[3] == "budget-exceeded":
+            ropetoll = obj in NON_ADDITIVE and any(st_.startswith("rope") for st_ in steps)
+            issues.append(dict(kind="oracle", routine="rope" if ropetoll else "chain", clause="terminates",
+                               cls="rope-livelock-under-a-non-additive-objective" if ropetoll else "checkMotion-budget",
+                               detail="a step of the history asked more than 150000 motions without returning (objective %s)" % obj, objective=obj,
+                               script=hdr + [line], observed=impl[-1:]))
+            continue
         if impl is None or rc != 0 or len(impl) != 4 or not impl[3].startswith("chain"):
             issues.append(dict(kind="oracle", routine="chain", clause="crash", cls=classify_crash("rnd 0 len " + steps[0], err or ""),
                                detail="a history of routines on one PathSimplifier object does not return (rc=%s, freeStates=%d): %s" % (rc, free, (err or "")[:500]),
@@ -1439,11 +1453,15 @@ def run_chain(ck, hbin, sc, rng, tag):
             continue
         cur = Scenario()
         cur.__dict__.update(sc.__dict__)
+        prev_chk = True
         for k, (step, part) in enumerate(zip(steps, impl[3].split(" || ")[1:])):
             routine = step.split()[0]
             res = parse_result(part, sc.w)
             res["len0"], res["len1"] = path_len(cur, cur.path), path_len(cur, [fl(q) for q in res["out"]])
             fails = oracle(cur, routine, "rnd 0 %s %s" % (obj, step), res, obj, routine in ("bettergoal", "simplify", "simplifymax"))
+            if not prev_chk:
+                fails = [f_ for f_ in fails if f_[0] != "check"]     # the step's INPUT already failed check() (a cut point in a sliver): not this step's doing
+            prev_chk = res["chk"]
             ck.case((tag, "chain", free, k, step[:30]), res["out"] != [tuple(B(x) for x in s_) for s_ in cur.path])
             issues += [dict(kind="oracle", routine=routine, clause=f_[0], detail=f_[1] + " [step %d of a history on one PathSimplifier object, freeStates=%d]" % (k, free),
                             cls=(f_[2] if len(f_) > 2 else None), objective=obj, script=hdr + [line], observed=[part[:300]]) for f_ in fails]
@@ -1490,6 +1508,7 @@ def gen_toll_scenario(rng):
             sc.goals.append(g)
     rng.shuffle(sc.goals)
     ops = []
+    ops.append(("rope", "rnd %d toll rope %s %s" % (rng.below(100000), B(rng.choice([0.7, 1.0, 1.4])), B(0.1))))
     for bo in ("toll", "toll", "toll", "tolli", "step", "stepi", "checker"):
         for _ in range(3):
             ops.append(("bettergoal", "rnd %d %s bettergoal 1000000 %d %s %s" % (rng.below(100000), bo, rng.choice([10, 50]),
